@@ -20,7 +20,7 @@
       - the abstract map is a map: strictly sorted, one entry per key ([C01_abstract_is_map]).
     The set is the instance [V = unit] (its twins are stated at the end). *)
 From Coq Require Import List NArith Bool Sorted.
-From PT Require Import Refine Refine2 EntryApi InstEntry Arena ArenaProps.
+From PT Require Import Refine Refine2 EntryApi InstEntry Arena ArenaProps Arena2 ArenaRefine.
 From PT.Properties Require Import Common.
 Import ListNotations.
 
@@ -302,6 +302,26 @@ Theorem C01_arena_get (am : Arena.amap pfx V) (es : list (pfx * V)) (q : pfx) :
   Arena3.a_contains_key pfx V (peq w) (contains w fl) (is_bit_set w) plen am q = Ok (match a_get es q with Some _ => true | None => false end).
 Proof. exact (arena_C01_get pfx V _ _ _ _ _ _ _ _ _ (laws w fl Hw) am es q). Qed.
 
+(** REFINEMENT at the arena level (ArenaRefine.v): every step of the arena-level code other than the
+    two [TrieViewMut] writes, on a reachable arena, returns [Ok] of a reachable arena whose iteration is
+    EXACTLY the abstract operation ([Refine.a_step] on the sorted association list) applied to the
+    iteration before the step; hence after any such history the arena iterates the abstract map. *)
+Theorem C01_arena_step_refines (am : Arena.amap pfx V) es (o : Arena2.aop2 pfx V) :
+  areach pfx V (peq w) (contains w fl) (is_bit_set w) plen (lcp w fl) pzero (okp w) am -> aop2_ok pfx V (okp w) o -> nonview pfx V o = true ->
+  Refine.refinable pfx V (okp w) (to_hop pfx V o) -> a_entries pfx V am = Ok es ->
+  exists am', Arena2.a_step2 pfx V (peq w) (contains w fl) (is_bit_set w) plen (lcp w fl) pzero o am = Ok am' /\
+              areach pfx V (peq w) (contains w fl) (is_bit_set w) plen (lcp w fl) pzero (okp w) am' /\
+              a_entries pfx V am' = Ok (fst (Refine.a_step pfx V (kbits w) es (to_hop pfx V o))).
+Proof. exact (arena_C01_step_refines pfx V _ _ _ _ _ _ _ _ _ (laws w fl Hw) am es o). Qed.
+
+Theorem C01_arena_run_refines (ops : list (Arena2.aop2 pfx V)) :
+  Forall (aop2_ok pfx V (okp w)) ops -> forallb (nonview pfx V) ops = true ->
+  Forall (Refine.refinable pfx V (okp w)) (map (to_hop pfx V) ops) ->
+  exists am, Arena2.a_run2 pfx V (peq w) (contains w fl) (is_bit_set w) plen (lcp w fl) pzero ops = Ok am /\
+             areach pfx V (peq w) (contains w fl) (is_bit_set w) plen (lcp w fl) pzero (okp w) am /\
+             a_entries pfx V am = Ok (Refine.a_run pfx V (kbits w) (map (to_hop pfx V) ops)).
+Proof. exact (arena_C01_run_refines pfx V _ _ _ _ _ _ _ _ _ (laws w fl Hw) ops). Qed.
+
 End C01.
 
 (* ---------------------------------------------------------------------------------------- *)
@@ -426,3 +446,5 @@ Print Assumptions C01_entry_insert.
 Print Assumptions C01_entry_or_insert.
 Print Assumptions C01_arena.
 Print Assumptions C01_arena_get.
+Print Assumptions C01_arena_step_refines.
+Print Assumptions C01_arena_run_refines.
